@@ -1,15 +1,15 @@
 """What MANIFEST.json is generated from (bin/mkmanifest)."""
 
-HOOK_COMMITS = ["c4c2ecd", "2f67f21", "e5d0013"]
+HOOK_COMMITS = ["c4c2ecd", "2f67f21", "e5d0013", "7bf7f92", "553dd8c"]
 
 ENGINES = [
-    {"name": "tlc", "path": "/verif/lib/vlib.py", "serves_properties": ["C01", "C02", "C03", "C05", "C06", "C12", "C17", "C18"],
+    {"name": "tlc", "path": "/verif/lib/vlib.py", "serves_properties": ["C01", "C02", "C03", "C05", "C06", "C11", "C12", "C17", "C18"],
      "kind_free_text": "TLC runner (exhaustive, simulation), TLA+ value parser, evidence writer"},
-    {"name": "psrun", "path": "/verif/lib/psprops.py", "serves_properties": ["C01", "C02", "C03", "C06"],
+    {"name": "psrun", "path": "/verif/lib/psprops.py", "serves_properties": ["C01", "C02", "C03", "C06", "C11"],
      "kind_free_text": "abstract programs (catalogue + seeded generator) -> MroSem table by TLC -> real pipestances under forced schedules -> PsTrace monitors by TLC"},
     {"name": "procdrv", "path": "/verif/lib/procdrv.py", "serves_properties": ["C05"],
      "kind_free_text": "real mrp/mrjob (tag verif) + table-driven vstage; SIGKILL/SIGTERM/SIGINT at the k-th effect; restart"},
-    {"name": "vh", "path": "/verif/harness", "serves_properties": ["C01", "C02", "C03", "C05", "C06", "C12", "C17", "C18"],
+    {"name": "vh", "path": "/verif/harness", "serves_properties": ["C01", "C02", "C03", "C05", "C06", "C11", "C12", "C17", "C18"],
      "kind_free_text": "Go conformance harness built with -tags verif against /repo's working tree"},
 ]
 
@@ -36,6 +36,10 @@ CHECKS = [
      "technique": "dependency relation from TLA+ semantics (MroSem provenance); slow-producer and random schedules forced on the real run loop; TLC trace monitors",
      "text": "Deps (per job: the stage instances whose outputs flow into its arguments, disabling conditions, map sources, plus enclosing preflights) is computed by TLC from MroSem; every producer in turn is held back while everything else runs; PsTrace (TLC) requires at every StageBegin that all dependencies' last jobs have ended ok and split < chunks < join.",
      "ref": "DESIGN.md 5 C02", "note": _RT_NOTE},
+    {"id": "C11", "engine": "tlc+psrun+vh",
+     "technique": "TLA+ model of key encoding, journal-name construction and the journal regular expression as a parser, theorems checked by TLC; rows replayed through the real functions; TLC trace monitors for routing on real mapped pipestances incl. stale attempts",
+     "text": "ForkNames.tla: TLC checks that fork directory and journal names are injective on keys and that Parse(JournalName(node, fork, chunk, uniquifier, file)) returns its parts for all keys up to length 2 over a 16-character alphabet (thorough: length 4 over 8), node names chosen to confuse the parser, chunk counts crossing decimal widths; every key row is replayed through makeKeySafe / encodeJournalName / parseRunFilename. Real pipestances mapped over adversarial key sets run under forced schedules; PsTrace (TLC) requires that every accepted notification lands on the directory of the job that wrote it, that no two jobs share a directory or journal name, and that the call returns exactly the input keys; restart runs with surviving orphan jobs check that stale attempts are never attributed.",
+     "ref": "DESIGN.md 5 C11", "note": _RT_NOTE + "; journal names for the unit replay are assembled in the harness from the real encoders"},
     {"id": "C05", "engine": "tlc+procdrv+vh",
      "technique": "TLA+ crash/restart model (MrpRun) checked exhaustively; crash-point enumeration on the real mrp/mrjob binaries; TLC trace monitors",
      "text": "MrpRun with Crash (any state, jobs dying or surviving as orphans) and Restart is model-checked for NoRedoOfRecorded, BeliefSound and StartsAfterDeps; the real mrp (hooks on) kills or signals itself right after its k-th file-system effect, is restarted on the same directory and must complete with the outputs of an uninterrupted run without re-executing jobs whose _complete was on disk; a handled signal must leave no _lock. PsTrace (TLC) judges the concatenated multi-process trace.",
